@@ -11,6 +11,7 @@ import (
 	"os"
 	"path/filepath"
 	"syscall"
+	"time"
 
 	"golang.org/x/tools/go/packages"
 )
@@ -189,4 +190,133 @@ func Load(cfg *packages.Config, patterns ...string) ([]*packages.Package, error)
 		return nil, errors.New("go list: injected failure (simulated)")
 	}
 	return packages.Load(cfg, patterns...)
+}
+
+// ---------------------------------------------------------------------------
+// Handle-based writes, renames and removals: a generator that writes through
+// os.OpenFile/os.Create + (*os.File).Write + Close, or through a temporary file
+// and os.Rename, meets the same faults as one that uses os.WriteFile.
+
+func OpenFile(name string, flag int, perm os.FileMode) (*os.File, error) {
+	n, f := enter("os.OpenFile")
+	logCall(n, "os.OpenFile", name, -1, "", f)
+	if f != nil {
+		if f.Kind == "crash" {
+			crashNow()
+		}
+		return nil, &fs.PathError{Op: "open", Path: name, Err: errnoOf(f.Errno)}
+	}
+	return os.OpenFile(name, flag, perm)
+}
+
+func Create(name string) (*os.File, error) {
+	n, f := enter("os.Create")
+	logCall(n, "os.Create", name, -1, "", f)
+	if f != nil {
+		if f.Kind == "crash" {
+			crashNow()
+		}
+		return nil, &fs.PathError{Op: "open", Path: name, Err: errnoOf(f.Errno)}
+	}
+	return os.Create(name)
+}
+
+func CreateTemp(dir, pattern string) (*os.File, error) {
+	n, f := enter("os.CreateTemp")
+	logCall(n, "os.CreateTemp", filepath.Join(dir, pattern), -1, "", f)
+	if f != nil {
+		if f.Kind == "crash" {
+			crashNow()
+		}
+		return nil, &fs.PathError{Op: "open", Path: filepath.Join(dir, pattern), Err: errnoOf(f.Errno)}
+	}
+	return os.CreateTemp(dir, pattern)
+}
+
+// FileWrite replaces f.Write(b) for f of type *os.File.
+func FileWrite(file *os.File, b []byte) (int, error) {
+	n, f := enter("File.Write")
+	logCall(n, "File.Write", file.Name(), len(b), sha(b), f)
+	if f != nil {
+		k := prefixLen(len(b), f.Pct)
+		switch f.Kind {
+		case "crash":
+			switch f.Torn {
+			case "prefix":
+				file.Write(b[:k])
+			case "full":
+				file.Write(b)
+			}
+			crashNow()
+		default:
+			if f.Short {
+				w, _ := file.Write(b[:k])
+				return w, &fs.PathError{Op: "write", Path: file.Name(), Err: errnoOf(f.Errno)}
+			}
+			return 0, &fs.PathError{Op: "write", Path: file.Name(), Err: errnoOf(f.Errno)}
+		}
+	}
+	return file.Write(b)
+}
+
+func FileWriteString(file *os.File, s string) (int, error) { return FileWrite(file, []byte(s)) }
+
+func FileSync(file *os.File) error {
+	n, f := enter("File.Sync")
+	logCall(n, "File.Sync", file.Name(), -1, "", f)
+	if f != nil {
+		if f.Kind == "crash" {
+			crashNow()
+		}
+		return &fs.PathError{Op: "sync", Path: file.Name(), Err: errnoOf(f.Errno)}
+	}
+	return file.Sync()
+}
+
+func FileClose(file *os.File) error {
+	n, f := enter("File.Close")
+	logCall(n, "File.Close", file.Name(), -1, "", f)
+	if f != nil {
+		if f.Kind == "crash" {
+			crashNow()
+		}
+		file.Close()
+		return &fs.PathError{Op: "close", Path: file.Name(), Err: errnoOf(f.Errno)}
+	}
+	return file.Close()
+}
+
+func Rename(oldpath, newpath string) error {
+	n, f := enter("os.Rename")
+	logCall(n, "os.Rename", newpath, -1, "", f)
+	if f != nil {
+		if f.Kind == "crash" {
+			if f.Torn == "full" {
+				os.Rename(oldpath, newpath)
+			}
+			crashNow()
+		}
+		return &os.LinkError{Op: "rename", Old: oldpath, New: newpath, Err: errnoOf(f.Errno)}
+	}
+	return os.Rename(oldpath, newpath)
+}
+
+func Remove(name string) error {
+	n, f := enter("os.Remove")
+	logCall(n, "os.Remove", name, -1, "", f)
+	if f != nil {
+		if f.Kind == "crash" {
+			crashNow()
+		}
+		return &fs.PathError{Op: "remove", Path: name, Err: errnoOf(f.Errno)}
+	}
+	return os.Remove(name)
+}
+
+// Now replaces time.Now: lox reads no clock today; if it ever does, the
+// simulator owns it. The simulated clock is the real one shifted by a per-run
+// offset (whole days and hours), so two generations of the same sources never
+// share a calendar date by accident.
+func Now() time.Time {
+	return time.Now().Add(time.Duration(op.ClockSkewHours) * time.Hour)
 }
